@@ -2,6 +2,7 @@ import Driver.Machine
 import Driver.Sut.Lattice
 import Driver.Sut.VClock
 import CrdtModel.Spec.Orswot
+import CrdtModel.Spec.OrswotExec
 import CrdtModel.Spec.VClock
 namespace Driver
 open Crdt OrswotSpec
@@ -77,27 +78,8 @@ def addClosed (U K : List OOp) : Bool :=
         | _ => true)
     | .rm _ _ => true)
 
-def opActors : OOp → List Nat
-  | .add d _ => [d.actor]
-  | .rm c _ => c.dots.l.map (·.1)
-def opMembers : OOp → List Nat
-  | .add _ ms => ms
-  | .rm _ ms => ms
-
-def specOrswotState (K : List OOp) : OS :=
-  let actors := dedupNat (K.flatMap opActors)
-  let members := sortDedupNat (K.flatMap opMembers)
-  let clock := VClockSpec.ofFun actors (clk K)
-  let entries : FMap Nat (VClock Nat) := members.foldl (fun e m =>
-    let c := VClockSpec.ofFun actors (E K m)
-    if c.isEmpty then e else e.insert m c) ∅
-  let rmClocks := K.filterMap (fun o => match o with | .rm c _ => some c | _ => none)
-  let deferred : FMap (VClock Nat) (FSet Nat) := rmClocks.foldl (fun d c =>
-    if actors.any (fun a => c.get a > clk K a) then
-      let ms := K.flatMap (fun o => match o with | .rm c' ms => if c' = c then ms else [] | _ => [])
-      d.insert c (Orswot.setOfList ms)
-    else d) ∅
-  ⟨clock, entries, deferred⟩
+/-- the executable specification proved sound in Proofs/OrswotExec.lean (`rep_specState`, `eq_specState`) -/
+def specOrswotState (K : List OOp) : OS := OrswotSpec.specState K
 
 def specOrswot (U K : List OOp) : String :=
   if orswotWF U && addClosed U K then
